@@ -11,7 +11,12 @@ sys.path.insert(0, %(src)r)
 import warnings; warnings.simplefilter("ignore")
 from twisted.internet import reactor
 from twisted.application.internet import StreamServerEndpointService
-from wormhole_mailbox_server import server_tap
+from wormhole_mailbox_server import server_tap, server as _server_mod
+if %(seed)r is not None:
+    # same replayable allocation choices as the in-process runs (the only change to the service)
+    sys.path.insert(0, %(verif)r)
+    from mon.engine import KeyedRandom
+    _server_mod.random = KeyedRandom(%(seed)r)
 o = server_tap.Options()
 o.parseOptions(%(args)r)
 svc = server_tap.makeService(o)
@@ -111,7 +116,7 @@ class RawWS(object):
 
 
 class WireServer(object):
-    def __init__(self, workdir, cfg, strace_log=None):
+    def __init__(self, workdir, cfg, strace_log=None, seed=None):
         self.workdir = workdir
         args = ["--port=tcp:0:interface=127.0.0.1", "--channel-db=" + os.path.join(workdir, "channel.sqlite")]
         if cfg.usage:
@@ -126,7 +131,8 @@ class WireServer(object):
             args.append("--advertise-version=" + cfg.advertise)
         if cfg.signal_error is not None:
             args.append("--signal-error=" + cfg.signal_error)
-        code = SERVER_CODE % {"src": _SRC, "args": args}
+        verif = os.path.dirname(os.path.dirname(os.path.abspath(__file__)))
+        code = SERVER_CODE % {"src": _SRC, "args": args, "seed": seed, "verif": verif}
         cmd = ["/venv/bin/python", "-W", "ignore", "-c", code]
         if strace_log:
             cmd = ["strace", "-f", "-yy", "-o", strace_log, "-e",
